@@ -207,8 +207,8 @@ impl Property for P {
     }
     fn workloads(&self, tier: Tier) -> Vec<Workload> {
         vec![
-            Workload::new("length", tier.pick(20_000, 700_000), false, "Content-Length bodies"),
-            Workload::new("close", tier.pick(8_000, 300_000), false, "close-delimited bodies"),
+            Workload::new("length", tier.pick(20_000, 2_500_000), false, "Content-Length bodies"),
+            Workload::new("close", tier.pick(8_000, 1_200_000), false, "close-delimited bodies"),
         ]
     }
     fn run_case(&self, wl: &str, idx: u64, seed: u64, rec: &mut Rec) {
